@@ -979,6 +979,23 @@ fn c15(seed: u64, thorough: bool) -> Scenario {
         let gl = make_glob(&mut g);
         g.world.args.globs.push(gl);
     }
+    // every positional argument an exact path, one of them naming a hidden / git-ignored file:
+    // naming such a file does not bring it into scope (only a diff does)
+    if g.rng.chance(1, 10) {
+        let plain = |p: &str| !p.contains(['[', '{', '\\', '*', '?']);
+        let hidden: Vec<String> =
+            g.world.files.iter().filter(|f| f.unwalkable && plain(&f.path)).map(|f| f.path.clone()).collect();
+        if !hidden.is_empty() {
+            let mut globs = vec![g.rng.pick(&hidden).clone()];
+            if g.rng.chance(1, 2) {
+                let others: Vec<String> = g.world.files.iter().filter(|f| plain(&f.path)).map(|f| f.path.clone()).collect();
+                globs.push(g.rng.pick(&others).clone());
+                globs.dedup();
+            }
+            g.world.args.globs = globs;
+            tags.push("globs=exact-paths-incl-unwalkable".into());
+        }
+    }
     let ni = *g.rng.pick(&[0usize, 0, 1, 1, 2, 3]);
     for _ in 0..ni {
         let gl = make_glob(&mut g);
